@@ -16,13 +16,11 @@ def main():
     seen = {}
     for i, tags, reqs in pv:
         for tag in tags:
-            seen.setdefault(recore.signature(tag, reqs), []).append(tr[i]["id"])
+            seen.setdefault(recore.signature(tag, reqs) + recore.sig_suffix(tr[i]), []).append(tr[i]["id"])
     from harness.core import load_findings
     kfs = [f for f in load_findings() if f["status"] == "open"]
     for s, ids in sorted(seen.items()):
-        sa = s + ("~async" if ids[0].split("|")[0] in recore.ASYNC_PLANS else "")
-        if ids[0].startswith("badconsumer:"):
-            sa += "~consumer-fails-on-" + ids[0].split("|doc:")[1]
+        sa = s
         kf = [f["id"] for f in kfs if re.fullmatch(f["sig_regex"], sa)]
         if "--all" in sys.argv or not kf:
             print(len(ids), s, kf or "UNKNOWN", "e.g.", ids[0])
